@@ -64,6 +64,8 @@ TzData synth_zone(uint64_t recipe_seed);
 // A sentence of the POSIX-TZ grammar (valid=true) or a near miss.
 std::string gen_posix_footer(Rng* rng, bool valid);
 // Tiny marker zone: one type, abbreviation `abbr`, offset `utoff`.
+// The std-only POSIX footer that matches a single-type zone (abbr, utoff).
+std::string std_footer_for(const std::string& abbr, int32_t utoff);
 TzData marker_zone(const std::string& abbr, int32_t utoff, char version);
 
 }  // namespace sim
